@@ -45,6 +45,9 @@ enum Ev {
     /// association a is removed from the channel and added again with the same address (run-time
     /// reconfiguration); only when nothing of it is pending
     ReAdd(usize),
+    /// a poll whose period cannot be added to the clock (Duration::MAX): never due by itself,
+    /// it runs only when demanded
+    AddPollNever(usize),
 }
 
 #[derive(Clone, Debug, PartialEq)]
@@ -95,6 +98,9 @@ fn build_alphabet(n: usize, keep_alive: bool) -> Vec<Ev> {
     if n >= 2 && !keep_alive {
         v.push(Ev::ReAdd(0));
     }
+    if n == 1 {
+        v.push(Ev::AddPollNever(0));
+    }
     v
 }
 
@@ -116,6 +122,9 @@ impl C19 {
         let mut best: Option<u64> = None;
         for a in m {
             for p in &a.polls {
+                if p.due == u64::MAX {
+                    continue; // never due by itself
+                }
                 best = Some(best.map_or(p.due, |b: u64| b.min(p.due)));
             }
             if let Some(k) = self.keep_alive {
@@ -210,6 +219,16 @@ impl Scenario for C19 {
                         }
                     }
                 }
+                Ev::AddPollNever(a) => {
+                    if m[*a].polls.is_empty() {
+                        let mut h = handles[*a].clone();
+                        let r = sim.call_now("add_poll", async move { h.add_poll(ReadRequest::all_objects(Variation::Group30Var0), Duration::MAX).await });
+                        if let Some(Ok(ph)) = r {
+                            poll_handles[*a].push(ph);
+                            m[*a].polls.push(PollM { period: u64::MAX, due: u64::MAX, handle_idx: 0 });
+                        }
+                    }
+                }
                 Ev::Demand(a) => {
                     if let Some(ph) = poll_handles[*a].first() {
                         let mut ph = ph.clone();
@@ -236,7 +255,7 @@ impl Scenario for C19 {
                             w => {
                                 if let Work::Poll(p) = w {
                                     let per = m[o.a].polls[*p].period;
-                                    m[o.a].polls[*p].due = now + per;
+                                    m[o.a].polls[*p].due = now.saturating_add(per);
                                 }
                                 let r = ideal_reply(&o.raw, 0);
                                 sim.respond_from(addr(o.a), &r);
@@ -252,7 +271,7 @@ impl Scenario for C19 {
                         }
                         if let Work::Poll(p) = &o.work {
                             let per = m[o.a].polls[*p].period;
-                            m[o.a].polls[*p].due = deadline + per;
+                            m[o.a].polls[*p].due = deadline.saturating_add(per);
                         }
                     }
                 }
